@@ -14,7 +14,11 @@ import random
 import shutil
 import tempfile
 
-from mc import par
+from mc import vclock
+
+vclock.install()
+
+from mc import par  # noqa: E402
 from mc.core import Result
 
 ID = "C03"
@@ -24,7 +28,8 @@ RULE = (
     "layer P: ingest-percentage cut for docs {100,150,200,300,1000,12345} x bulk size {1,7} x 14 percentages x clients {1,2,3} with "
     "synthetic readers; layer F: 12 corpus layouts (1-2 corpora x 1-2 files, 1..11 docs, with/without action-and-meta-data lines, ASCII and "
     "2/3/4-byte UTF-8) x clients 1..5 x worker splits of 4 layouts x bulk {1,2,3,5,1000} x batch {1x,2x,3x} x percentage {100,75,50,34,1} and "
-    "conflict modes; layer O: files of 49999..120007 lines (offset tables) with multi-byte content x clients {2,3} x two bulk sizes. "
+    "conflict modes; layer E: 12 layouts x clients {1,2,3,5} x 4 worker splits x bulk {1,3,1000} end to end through the real worker stack "
+    "(AsyncIoAdapter .. BulkIndex runner .. client) against the simulated _bulk endpoint; layer O: files of 49999..120007 lines (offset tables) with multi-byte content x clients {2,3} x two bulk sizes. "
     "non-trivial = more than one client or more than one bulk; distinct = the configuration"
 )
 ASSUMPTIONS = [
@@ -375,6 +380,88 @@ def check_files(layout_i, clients, hname, bulk, batch_mult, pct, conflicts, res,
         )
 
 
+# ------------------------------------------------------------------------------------------------ layer E (end to end)
+
+
+def check_e2e(layout_i, clients, hname, bulk, res):
+    """the real bulk task through the real worker stack (AsyncIoAdapter, schedule, executor, BulkIndex runner, client) against the
+    simulated node: the bodies received by the _bulk endpoint contain every document exactly once"""
+    from esrally.driver import driver
+    from esrally.track import track
+
+    from mc import loadgen
+
+    loadgen.setup()
+    trk, ref = _S.setdefault("tracks", {}).get((os.getpid(), layout_i)) or (None, None)
+    if trk is None:
+        trk, ref = write_corpora(LAYOUTS[layout_i], f"l{layout_i}")
+        _S["tracks"][(os.getpid(), layout_i)] = (trk, ref)
+    op = track.Operation("bulk-op", "bulk", params={"bulk-size": bulk})
+    task = track.Task("bulk-task", op, clients=clients)
+    seen = {}
+    v = None
+    nreq = 0
+
+    def behaviour(entry):
+        n = len([l for l in (entry["body"] or b"").split(b"\n") if l]) // 2
+        return {"service_time": 0.0625, "body": {"took": 1, "errors": False, "items": [{"index": {"status": 201}}] * n}}
+
+    for h in driver.calculate_worker_assignments(HOSTS[hname], clients):
+        for group in h["workers"]:
+            if not group:
+                continue
+            allocs = [(cid, loadgen.allocation(task, cid)) for cid in group]
+            r = loadgen.run_worker(allocs, behaviour, track=trk)
+            if r.error is not None or r.loop_errors:
+                v = ("e2e-raises", f"clients {group}: {type(r.error).__name__}: {r.error} {r.loop_errors[:1]}")
+                break
+            for e in r.log:
+                if "_bulk" not in e["target"]:
+                    continue
+                nreq += 1
+                lines = split_body(e["body"] or b"")
+                if len(lines) % 2:
+                    v = ("e2e-unpaired-lines", f"request with {len(lines)} lines")
+                    break
+                for k in range(0, len(lines), 2):
+                    did = json.loads(lines[k + 1])["id"]
+                    seen[did] = seen.get(did, 0) + 1
+            total_ops = sum(s.total_ops for s in r.samples)
+            if v is None and total_ops != sum(len(split_body(e["body"] or b"")) // 2 for e in r.log if "_bulk" in e["target"]):
+                v = ("e2e-sample-weights", f"clients {group}: samples report {total_ops} docs")
+        if v:
+            break
+    if v is None:
+        want = set()
+        for path, lines in ref.items():
+            meta = any(d.includes_action_and_meta_data for c in trk.corpora for d in c.documents if d.document_file == path)
+            for l in (lines[1::2] if meta else lines):
+                want.add(json.loads(l)["id"])
+        missing = sorted(want - set(seen))
+        dups = sorted(k for k, n in seen.items() if n > 1)
+        extra = sorted(set(seen) - want)
+        if missing or dups or extra:
+            v = ("e2e-not-exactly-once", f"missing {missing[:6]} duplicated {dups[:6]} unexpected {extra[:6]}")
+    res.case(
+        case_repr={"end_to_end": True, "corpora": LAYOUTS[layout_i], "clients": clients, "workers": hname, "bulk": bulk, "bulk_requests": nreq} if res.sample_now(211) else None,
+        nontrivial_key=("E", layout_i, clients, hname, bulk) if clients > 1 or nreq > 1 else None,
+        outcome_key=("E", nreq, v[0] if v else "ok"),
+    )
+    if v:
+        res.violation(f"bulk:{v[0]}", f"end-to-end corpora={LAYOUTS[layout_i]} clients={clients} workers={hname} bulk={bulk}: {v[1]}",
+                      {"layer": "E", "layout": layout_i, "clients": clients, "hosts": hname, "bulk": bulk})
+
+
+def e2e_cases(tier):
+    for li in range(len(LAYOUTS)):
+        for clients in (1, 2, 3, 5):
+            for hname in ("1x1", "1x2", "2x1", "1x3"):
+                for bulk in (1, 3, 1000):
+                    if tier == "quick" and (bulk == 3 and hname in ("2x1",) or clients == 5 and bulk == 1):
+                        continue
+                    yield (li, clients, hname, bulk)
+
+
 def file_cases(tier):
     for li in range(len(LAYOUTS)):
         for clients in (1, 2, 3, 4, 5):
@@ -445,6 +532,9 @@ def _job(arg):
     elif kind == "F":
         for it in items:
             check_files(*it, res)
+    elif kind == "E":
+        for it in items:
+            check_e2e(*it, res)
     else:
         for spec, clients, bulk in items:
             _S["large_spec"] = list(spec)
@@ -457,10 +547,12 @@ def _job(arg):
 def run(tier, seed):
     fc = list(file_cases(tier))
     lc = list(large_cases(tier))
-    jobs = [("A", None), ("P", None)] + [("F", ch) for ch in par.chunks(fc, par.NPROC * 4)] + [("O", [c]) for c in lc]
+    ec = list(e2e_cases(tier))
+    jobs = [("A", None), ("P", None)] + [("F", ch) for ch in par.chunks(fc, par.NPROC * 4)] + [("O", [c]) for c in lc] + [("E", ch) for ch in par.chunks(ec, par.NPROC * 2)]
     res = par.pmap(_job, jobs, seed=seed)
     res.extra["file_cases"] = len(fc)
     res.extra["offset_table_cases"] = len(lc)
+    res.extra["end_to_end_cases"] = len(ec)
     res.states = res.evaluations
     res.transitions = res.evaluations
     return res
@@ -478,6 +570,8 @@ def replay(data):
         check_bounds(res)
     elif data["layer"] == "P":
         check_percentage(res)
+    elif data["layer"] == "E":
+        check_e2e(data["layout"], data["clients"], data["hosts"], data["bulk"], res)
     elif data.get("large"):
         spec = tuple(data["large"])
         _S["large_spec"] = list(spec)
